@@ -493,6 +493,77 @@ def _law_case(args):
     return cnt, out
 
 
+def _iso_case(args):
+    """The isoelasticity lines that dclab ships for a table, converted to a
+    set-up (channel width, flow rate, viscosity, with / without the
+    pixelation offset) with the same scaling laws: the Young's modulus of
+    the points of a line, computed for that set-up, relates to the line's
+    own modulus by the same factor in every set-up (the factor is the
+    interpolation difference between line and table, not 1).  A joint
+    invariance of `isoelastics.convert` / `add_px_err` and get_emodulus."""
+    lid, = args
+    from dclab import isoelastics as iso
+    from dclab.features.emodulus import get_emodulus
+    out = []
+    cnt = 0
+    inst = iso.get_default()
+    case0 = {"kind": "iso", "lut": lid}
+    setups = [(20.0, 0.04, 15.0), (20.0, 0.08, 15.0), (20.0, 0.04, 5.0),
+              (30.0, 0.16, 6.0), (40.0, 0.32, 3.0), (15.0, 0.016, 25.0)]
+    ref = None
+    for w, q, eta in setups:
+        for px in (False, True):
+            cnt += 1
+            case = dict(case0, setup=[w, q, eta], px=px)
+            try:
+                lines = inst.get(col1="area_um", col2="deform",
+                                 lut_identifier=lid, channel_width=w,
+                                 flow_rate=q, viscosity=eta, add_px_err=px,
+                                 px_um=0.34)
+                ratio = []
+                for ln in lines:
+                    ln = np.asarray(ln)
+                    e = np.asarray(get_emodulus(
+                        area_um=ln[:, 0].copy(), deform=ln[:, 1].copy(),
+                        medium=eta, channel_width=w, flow_rate=q,
+                        px_um=0.34 if px else 0.0, temperature=None,
+                        lut_data=lid, visc_model=None))
+                    ratio.append(e / ln[:, 2])
+                ratio = np.concatenate(ratio)
+            except Exception as e:
+                out.append(violation(
+                    GE, "exception", case, f"{type(e).__name__}: {e}",
+                    {"lut": "iso", "exc": type(e).__name__}))
+                continue
+            if ref is None:
+                ref = ratio
+                fin = np.isfinite(ratio)
+                if fin.mean() < 0.9 or np.median(
+                        np.abs(ratio[fin] - 1)) > 0.05:
+                    out.append(violation(
+                        GE, "isoelastics-off-the-table", case,
+                        f"{lid}: only {fin.mean():.2f} of the line points "
+                        f"are supported / median deviation "
+                        f"{np.median(np.abs(ratio[fin] - 1)):.3f}",
+                        {"lut": "iso"}))
+                continue
+            # points within rounding of the hull may flip between NaN and
+            # a value; everywhere else the factor is the same
+            both = np.isfinite(ratio) & np.isfinite(ref)
+            flips = int((np.isfinite(ratio) != np.isfinite(ref)).sum())
+            if flips > 0.01 * len(ref) or not np.allclose(
+                    ratio[both], ref[both], rtol=1e-6, atol=0):
+                worst = np.max(np.abs(ratio[both] / ref[both] - 1)) \
+                    if both.any() else np.nan
+                out.append(violation(
+                    GE, "isoelastics-not-invariant-under-rescaling", case,
+                    f"{lid} set-up (W={w}, Q={q}, eta={eta}, px={px}): "
+                    f"E(line points)/E(line) differs from the 20 um "
+                    f"set-up by up to {worst:.3g} (relative), {flips} "
+                    f"points changed support", {"lut": "iso", "px": px}))
+    return cnt, out, cnt
+
+
 def _replace_case(args):
     """A user LUT replaced on disk under the same path / an identifier
     registered again for another file: the next call uses the new table."""
@@ -559,6 +630,8 @@ def run(ctx):
     res = par.pmap(_lut_case, items)
     res += par.pmap(_law_case, [(lid, scratch) for lid in LUTS])
     res += par.pmap(_replace_case, [(scratch,)])
+    res += par.pmap(_iso_case, [(lid,) for lid in (
+        "LE-2D-FEM-19", "HE-2D-FEM-22", "HE-3D-FEM-22")])
     res += par.pmap(_node_case, [(lid,) for lid in LUTS
                                  if lid.startswith("builtin:")])
     viols = []
@@ -595,6 +668,9 @@ def run(ctx):
 
 
 def replay(case, ctx):
+    if case["kind"] == "iso":
+        return [v for v in _iso_case((case["lut"],))[1]
+                if v["case"] == case]
     if case["kind"] == "replace":
         _, vs = _replace_case((ctx.scratch,))
         return [v for v in vs if v["case"].get("how") == case.get("how")]
